@@ -391,6 +391,63 @@ Definition oversize_verdict (c : ccase) (o : val) (tl : list val) : option N :=
   then Some (if val_eqb o (cerr_val 50) || (flush_fails c && val_eqb o (cerr_val 43)) then HOLDS else VIOLATES)
   else Some (if res_is_err o then HOLDS else VIOLATES).
 
+(* A valid reply that arrives TOGETHER with trailing bytes: the read that completes the reply [frame]
+   also carries further bytes.  Result: everything delivered up to and including that read, and the
+   sizes of the reads before it.  (Until that read the reply is incomplete, so the client is still
+   reading -- unless a short ExpectedResponseLength has stopped it, which [d7_region] recognises.) *)
+Fixpoint ext_walk (steps : list step) (frame got : list N) (sizes : list nat) : option (list N * list nat) :=
+  match steps with
+  | [] => None
+  | st :: more =>
+      if s_ctx st || s_timer st then None else
+      let data (b : list N) (eof : bool) :=
+        let got' := (got ++ b)%list in
+        if (length got' <? length frame)%nat
+        then (if is_prefix got' frame && negb eof then ext_walk more frame got' (sizes ++ [length b])%list else None)
+        else if (length frame <? length got')%nat && is_prefix frame got' then Some (got', sizes) else None in
+      match s_rd st with
+      | RIoErr _ => None
+      | RData b => data b false
+      | RTimeout b => data b false
+      | REof b => data b true
+      end
+  end.
+(* what the properties demand then.  [crc]: C12 (RTU: the bytes received do not end in their CRC:
+   an error that is not a device exception); otherwise C08 (more than a frame can hold: an error);
+   ErrPacketTooLong beyond the client's own limit *)
+Definition ext_rule (c : ccase) (o : val) (crc : bool) (consumed_len : nat) : option N :=
+  match cc_req c with
+  | Some (q, sr) =>
+      let k := c_kind (cc_cfg c) in
+      let tcp := is_tcp_kind k in
+      if negb (c_connected (cc_cfg c)) || sc_swd_err (cc_script c) || sc_write_err (cc_script c)
+         || negb (framing_agrees c) then None else
+      match want_frame tcp (q_tid q) (cc_want c) with
+      | Some (frame, _, is_exc) =>
+          if negb (reply_matches sr (cc_want c)) || (max_adu tcp <? length frame)%nat then None else
+          match ext_walk (sc_steps (cc_script c)) frame [] [] with
+          | Some (got, sizes) =>
+              let too_long := (spec_max k <? length got)%nat in
+              let applies := if crc then too_long || negb (ends_in_spec_crc got) else (frame_max k <? length got)%nat in
+              if negb applies then None else
+              let is_too_long := val_eqb o (cerr_val 50) || (flush_fails c && val_eqb o (cerr_val 43)) in
+              let plain_err :=
+                res_is_err o && negb (match o with VL (VI 1%Z :: _ :: _ :: VI 4%Z :: _) => true | _ => false end) in
+              if crc then
+                (* C12: never data, never a device exception; ErrPacketTooLong once the client has
+                   itself taken more than its limit (a short ExpectedResponseLength may have made
+                   it stop before: then the parser's error) *)
+                Some (if (if (spec_max k <? consumed_len)%nat then is_too_long else plain_err) then HOLDS else VIOLATES)
+              else
+                Some (if (if too_long then is_too_long else plain_err) then HOLDS
+                      else d7_region tcp (flush_fails c) sr is_exc sizes (length frame) o)
+          | None => None
+          end
+      | None => None
+      end
+  | None => None
+  end.
+
 Definition verdict_C08 (c : ccase) (o t : val) : N :=
   let k := c_kind (cc_cfg c) in
   if res_is_panic o then VIOLATES else
@@ -405,9 +462,10 @@ Definition verdict_C08 (c : ccase) (o t : val) : N :=
       else if sc_write_err (cc_script c) then
         (if val_eqb o (cerr_val 41) || (flush_fails c && val_eqb o (cerr_val 43)) then HOLDS else VIOLATES)
       else
-        match (match t with VL tl => oversize_verdict c o tl | _ => None end) with
-        | Some v => v
-        | None =>
+        match (match t with VL tl => oversize_verdict c o tl | _ => None end), ext_rule c o false 0 with
+        | Some v, _ => v
+        | None, Some v => v
+        | None, None =>
         let tcp := is_tcp_kind k in
         if negb (framing_agrees c) then NOT_JUDGED else
         match want_frame tcp (q_tid q) (cc_want c) with
@@ -429,12 +487,15 @@ Definition res_is_rtu_exception (o : val) : bool :=
   match o with VL (VI 1%Z :: _ :: _ :: VI 4%Z :: _) => true | _ => false end.
 Definition verdict_C12 (c : ccase) (o t : val) : N :=
   if is_tcp_kind (c_kind (cc_cfg c)) then NOT_JUDGED else
+  if res_is_panic o then VIOLATES else
+  match ext_rule c o true (match t with VL tl => length (consumed tl) | _ => 0%nat end) with Some v => v | None =>
   if res_is_ok o || res_is_rtu_exception o then
     match t with
     | VL tl => if ends_in_spec_crc (consumed tl) then HOLDS else VIOLATES
     | _ => VIOLATES
     end
-  else if res_is_panic o then VIOLATES else HOLDS.
+  else HOLDS
+  end.
 
 (* ---------- C19 ---------- *)
 Definition is_hook_ev (v : val) : bool :=
@@ -513,7 +574,101 @@ Definition verdict_cdo2 (p : N) (a : list val) (out : val) : N :=
   | None, _ => NOT_JUDGED
   end.
 
+(* ---------- sequences of calls on one client object: entry "cdoseq" ----------
+   args [kind; port; flusher; hooks; [op...]]   port: the serial client was given a port
+   op   [0; dial_fails] Connect | [1] Close | [2; request; script; want] Do
+   outcome [r...], one per op:  [0] returned nil, [1] returned an error (Connect),
+   [result; trace] for Do, [98] the call did not return (watchdog) *)
+Definition dec_op (v : val) : option (op * val) :=
+  match v with
+  | VL [VI 0%Z; VI f] => Some (OpConnect (zbool f), VL [])
+  | VL [VI 1%Z] => Some (OpClose, VL [])
+  | VL [VI 2%Z; rq; scv; want] =>
+      match dec_req rq, dec_script scv with
+      | Some r, Some sc => Some (OpDo (option_map fst r) sc, VL [rq; scv; want])
+      | _, _ => None
+      end
+  | _ => None
+  end.
+Fixpoint dec_ops (l : list val) : option (list (op * val)) :=
+  match l with
+  | [] => Some []
+  | v :: r => match dec_op v, dec_ops r with Some o, Some os => Some (o :: os) | _, _ => None end
+  end.
+Definition proj_opres (r : opres) : val :=
+  match r with
+  | RConnect ok => VL [VI (if ok then 0 else 1)%Z]
+  | RClose => VL [VI 0%Z]
+  | RDo x => VL (proj_result x)
+  end.
+Definition init_state (k : kind) (port : bool) : cstate :=
+  {| st_conn := if is_serial k then port else false; st_closed := false |}.
+Definition run_cdoseq (a : list val) : val :=
+  match a with
+  | [VI k; VI port; VI fl; VI hooks; VL ops] =>
+      match dec_kind k, dec_ops ops with
+      | Some kd, Some os =>
+          let cfg0 := {| c_kind := kd; c_connected := false; c_hooks := zbool hooks; c_flusher := zbool fl |} in
+          VL (map proj_opres (run_ops cfg0 (init_state kd (zbool port)) (map fst os)))
+      | _, _ => v_bad
+      end
+  | _ => v_bad
+  end.
+
+(* the verdict follows the object's state from the Connect / Close calls alone and judges every
+   call by itself: it must return, and a Do must satisfy the single-call statement for the state
+   it starts in (a closed transport refuses SetWriteDeadline / Write) *)
+Definition hang : val := VL [VI 98%Z].
+Definition closed_script_val (k : kind) (scv : val) : val :=
+  match scv with
+  | VL [swd; wr; fl; steps] => if is_serial k then VL [swd; VI 1%Z; fl; steps] else VL [VI 1%Z; wr; fl; steps]
+  | _ => scv
+  end.
+Definition judged_prop (p : N) : bool := (p =? 7) || (p =? 8) || (p =? 12) || (p =? 19).
+Fixpoint seq_verdicts (p : N) (k fl hooks : Z) (conn closed : bool) (ops : list (op * val)) (outs : list val) : list N :=
+  match ops, outs with
+  | [], [] => []
+  | (o, info) :: rest, out :: outs' =>
+      let kd := match dec_kind k with Some x => x | None => KTcp end in
+      let here :=
+        if val_eqb out hang then VIOLATES else
+        match o, info with
+        | OpConnect f, _ =>
+            if p =? 8 then (if val_eqb out (VL [VI (if is_serial kd || negb f then 0 else 1)%Z]) then HOLDS else VIOLATES) else NOT_JUDGED
+        | OpClose, _ => if p =? 8 then (if val_eqb out (VL [VI 0%Z]) then HOLDS else VIOLATES) else NOT_JUDGED
+        | OpDo _ _, VL [rq; scv; want] =>
+            verdict_cdo p [VI k; vbool conn; VI fl; VI hooks; rq; (if closed then closed_script_val kd scv else scv); want] out
+        | _, _ => NOT_JUDGED
+        end in
+      let conn' := match o with OpConnect f => if is_serial kd || f then conn else true | _ => conn end in
+      let closed' := match o with
+                     | OpConnect f => if is_serial kd || f then closed else false
+                     | OpClose => if conn then true else closed
+                     | _ => closed end in
+      here :: seq_verdicts p k fl hooks conn' closed' rest outs'
+  | _, _ => [VIOLATES]      (* a result is missing *)
+  end.
+(* VIOLATES wins, then a known-finding code, then HOLDS *)
+Definition combine (vs : list N) : N :=
+  if existsb (N.eqb VIOLATES) vs then VIOLATES else
+  match filter (fun v => 100 <=? v) vs with
+  | c :: _ => c
+  | [] => if existsb (N.eqb HOLDS) vs then HOLDS else NOT_JUDGED
+  end.
+Definition verdict_cdoseq (p : N) (a : list val) (out : val) : N :=
+  if negb (judged_prop p) then NOT_JUDGED else
+  match a, out with
+  | [VI k; VI port; VI fl; VI hooks; VL ops], VL outs =>
+      match dec_kind k, dec_ops ops with
+      | Some kd, Some os =>
+          combine (seq_verdicts p k fl hooks (if is_serial kd then zbool port else false) false os outs)
+      | _, _ => NOT_JUDGED
+      end
+  | _, _ => VIOLATES
+  end.
+
 Open Scope string_scope.
 Definition table_client : list entry :=
   [ {| e_name := "cdo"; e_run := run_cdo; e_verdict := verdict_cdo |};
-    {| e_name := "cdo2"; e_run := run_cdo2; e_verdict := verdict_cdo2 |} ].
+    {| e_name := "cdo2"; e_run := run_cdo2; e_verdict := verdict_cdo2 |};
+    {| e_name := "cdoseq"; e_run := run_cdoseq; e_verdict := verdict_cdoseq |} ].
